@@ -283,6 +283,8 @@ type Outcome struct {
 	ReplayMiss     int
 	Preempts       int
 	PreemptsInCall int
+	Nontrivial     bool   // set by harnesses whose notion of a non-trivial case is not a preemption
+	OpsHash        uint64 // set by sequential harnesses: hash of the operation history
 }
 
 // Strategy selects how the next task is chosen.
